@@ -69,4 +69,24 @@ def cases(tier, rng=None):
             requires=[], modifies=[],
             ensures=['coll_trace() == [("comm", "gather", rank), ("comm", "Gatherv", rank)]'])}
         out.append(dict(label='getBlockForFig %d fixed dims' % nd, struct=None, key=GR + '::Grid.getBlockForFig', contracts=C))
+    # single-step transposes: exactly one Alltoall on the sub-communicator of the one distributed position whose dimension
+    # changes, none when no distributed dimension changes -- a function of the orderings and of the process-grid pattern only
+    std = {'flux_surface': (0, 3, 1, 2), 'v_parallel': (0, 2, 1, 3), 'poloidal': (3, 2, 1, 0)}
+
+    def lay(name):
+        return {'__class__': LY + '::Layout', '_name': ('const', name), '_dims_order': ('const', std[name]), '_ndims': ('const', 4),
+                '_shape': 'opaque', '_size': 'opaque', '_max_shape': 'opaque', '_nprocs': 'opaque', '_mpi_lengths': 'opaque',
+                '_mpi_starts': 'opaque', '_starts': 'opaque', '_ends': 'opaque'}
+    for (a, b) in (('flux_surface', 'v_parallel'), ('v_parallel', 'flux_surface'), ('v_parallel', 'poloidal'), ('poloidal', 'v_parallel')):
+        for pat in ('22', '21', '12', '11'):
+            req = ['self._nprocsList[%d] %s' % (k, '>= 2' if c == '2' else '== 1') for k, c in enumerate(pat)]
+            diff = [k for k in range(2) if std[a][k] != std[b][k] and pat[k] == '2']
+            exp = '[("self._subcomms[%d]", "Alltoall")]' % diff[0] if diff else '[]'
+            for meth, extra in (('_transpose', {}), ('_transpose_source_intact', {'buf': 'opaque'})):
+                hs = {'__class__': LY + '::LayoutHandler', '_nprocsList': 'list2int', '_subcomms': ('list', ['comm', 'comm'])}
+                params = {'self': hs, 'source': 'opaque', 'dest': 'opaque', 'layout_source': lay(a), 'layout_dest': lay(b)}
+                params.update(extra)
+                C = {LY + '::LayoutHandler.' + meth: dict(params=params, requires=req, ensures=['coll_trace() == ' + exp], modifies=[])}
+                out.append(dict(label='%s %s->%s grid pattern %s' % (meth, a, b, pat), struct=None, key=LY + '::LayoutHandler.' + meth,
+                                contracts=C))
     return out
